@@ -71,6 +71,22 @@ fn main() {
     // panics in code under test are data: keep the default hook quiet
     std::panic::set_hook(Box::new(|_| {}));
     let args: Vec<String> = std::env::args().collect();
+    // --threads t: run everything inside a rayon pool of exactly t threads (parallel build only)
+    if let Some(t) = arg(&args, "--threads") {
+        #[cfg(feature = "parallel")]
+        {
+            let t: usize = t.parse().expect("--threads <n>");
+            let pool = rayon::ThreadPoolBuilder::new().num_threads(t).build().expect("thread pool");
+            pool.install(|| { assert_eq!(rayon::current_num_threads(), t); real_main(args.clone()) });
+            return;
+        }
+        #[cfg(not(feature = "parallel"))]
+        { let _ = t; eprintln!("--threads needs the parallel build"); std::process::exit(2); }
+    }
+    real_main(args)
+}
+
+fn real_main(args: Vec<String>) {
     let cmd = args.get(1).map(|s| s.as_str()).unwrap_or("");
     let machine = args.get(2).map(|s| s.as_str()).unwrap_or("");
     let cfg = arg(&args, "--cfg").unwrap_or_default();
